@@ -242,8 +242,24 @@ def satisfies(mvt, plug) -> bool | None:
     if any(not occurs_only_negative(plug, X) for X in N):
         return False
     if H:
-        return None
+        # an application context in the hole variable x: [] | C psi | psi C with x not free in psi. The document gives no
+        # judgement for holes; these plugs are application contexts under any reading, and only they are used as instances
+        if len(H) != 1:
+            return None
+        return is_app_ctx(plug, H[0])
     return True
+
+
+def is_app_ctx(t, x) -> bool:
+    if t == ('evar', x):
+        return True
+    if t[0] == 'app':
+        l_in, r_in = ('e', x) in fv(t[1]), ('e', x) in fv(t[2])
+        if l_in and not r_in:
+            return is_app_ctx(t[1], x)
+        if r_in and not l_in:
+            return is_app_ctx(t[2], x)
+    return False
 
 
 def instantiate_concrete(t, assign: dict, avoid_capture: bool = False):
